@@ -272,20 +272,20 @@ def pairs(rng, n):
 
 def typed_op(rng):
     """one typed tagged-option setter with a representable argument (every list/string ≤ 255 bytes once encoded,
-    non-empty where libtins takes `&v[0]`, rates < 64 Mbit/s so that the basic-rate bit is not part of the value)"""
+    rates < 64 Mbit/s so that the basic-rate bit is not part of the value)"""
     u16 = lambda: rng.choice([0, 1, 255, 256, 0xffff, rng.randrange(65536)])
     u32 = lambda: rng.choice([0, 1, 0xffffffff, rng.randrange(1 << 32)])
     blen = lambda lo=1: rng.choice([lo, lo + 1, 7, 8, 9, 32, rng.randint(lo, 60)])
     suites = [0x01ac0f00, 0x02ac0f00, 0x04ac0f00, 0x05ac0f00, 0x06ac0f00]
     choices = [
         lambda: f"ssid {hexs(rb(rng, rng.choice([0, 1, 7, 8, 9, 32, 255])))}",
-        lambda: f"supported_rates {','.join(str(rng.choice([2, 4, 11, 22, 12, 18, 24, 36, 48, 72, 96, 108, rng.randrange(128)])) for _ in range(rng.choice([1, 4, 8, 9])))}",
-        lambda: f"extended_supported_rates {','.join(str(rng.randrange(128)) for _ in range(rng.choice([1, 4, 8, 9])))}",
+        lambda: "supported_rates " + (",".join(str(rng.choice([2, 4, 11, 22, 12, 18, 24, 36, 48, 72, 96, 108, rng.randrange(128)])) for _ in range(rng.choice([0, 1, 4, 8, 9]))) or "-"),
+        lambda: "extended_supported_rates " + (",".join(str(rng.randrange(128)) for _ in range(rng.choice([0, 1, 4, 8, 9]))) or "-"),
         lambda: f"qos_capability {u8(rng)}",
         lambda: f"power_capability {u8(rng)} {u8(rng)}",
-        lambda: f"supported_channels {pairs(rng, rng.choice([1, 2, 4, 5]))}",
+        lambda: f"supported_channels {pairs(rng, rng.choice([0, 1, 2, 4, 5]))}",
         lambda: f"edca_parameter_set {u32()} {u32()} {u32()} {u32()}",
-        lambda: f"request_information {hexs(rb(rng, blen()))}",
+        lambda: f"request_information {hexs(rb(rng, blen(0)))}",
         lambda: f"fh_parameter_set {u16()} {u8(rng)} {u8(rng)} {u8(rng)}",
         lambda: f"ds_parameter_set {u8(rng)}",
         lambda: f"cf_parameter_set {u8(rng)} {u8(rng)} {u16()} {u16()}",
